@@ -170,8 +170,14 @@ def rule_dom(run):
         if 'len(pts) > 0' in doms or any(t.startswith('col == start_col == end_col') for t in doms):
             run.ok(key, {'guards': doms}, where=ct.where(c))
         else:
-            run.violated(key, 'column %s is appended to the track under %s, i.e. without the line having crossed its polygon '
-                         'or containing both end points' % (colv, doms), where=ct.where(c))
+            # a violation only if every guard is one we understand *not* to establish a crossing (the bounding-box pre-filter,
+            # the clip-length test); a guard of another shape (a helper's result, ...) leaves it undecided
+            weak = [t for t in doms if t.startswith('line_intersects_rectangle(') or 'col_tol' in t or t in ('True',)]
+            if len(weak) == len(doms):
+                run.violated(key, 'column %s is appended to the track under %s, i.e. without the line having crossed its polygon '
+                             'or containing both end points' % (colv, doms), where=ct.where(c))
+            else:
+                run.unknown(key, 'guards %s not recognised as the crossing test' % [t for t in doms if t not in weak], where=ct.where(c))
     pts = [n for n in walk_no_nested(ct.node) if isinstance(n, ast.Assign) and norm(n.targets[0]) == 'pts' and isinstance(n.value, ast.Call)]
     if pts:
         # the polygon argument, with a local alias (poly = col.polygon) resolved
